@@ -228,7 +228,7 @@ func TestC06Schedules(t *testing.T) {
 		for _, s := range allInterleavings(lim, lim) {
 			cases = append(cases, &c06Case{Start: start, Pools: []int{1, 1}, Schedule: s, Overlap: len(cases)%2 == 0})
 		}
-		for i := 0; i < pick(20, 400); i++ {
+		for i := 0; i < pick(50, 400); i++ {
 			cc := &c06Case{Start: start, Pools: []int{pickOne(rng, []int{0, 1, 2, 3, 257}), pickOne(rng, []int{0, 1, 2, 258})}, Overlap: rng.Bool()}
 			if rng.Intn(3) == 0 {
 				cc.Pools = append(cc.Pools, pickOne(rng, []int{0, 1, 2}))
